@@ -187,3 +187,24 @@ def _conditions(ctx):
             ctx.ob("C36.R4", site, "`%s`: an operand that decides the result leaves to the %s; otherwise evaluation continues in a fresh block made current" % (opn.lower(), "no-block" if opn == "And" else "yes-block"), ok, construct="short-circuit:" + opn)
         if len(tail) == 1:
             ctx.ob("C36.R4", site, "`%s`: the last operand decides between the yes- and the no-block" % opn.lower(), [norm(a) for a in tail[0].args[1:]] == ["yes_block", "no_block"], construct="last-operand:" + opn)
+    _assign(ctx)
+
+
+def _assign(ctx):
+    """R5: a, b = b, a - every right-hand side is evaluated before any target is stored"""
+    ctx.rule("C36.R5", "tuple assignment: ALL right-hand values are computed before the first target is stored (Python evaluates the right-hand tuple first: `a, b = b, a + b`)", floor=2)
+    ga = ctx.fn(F, "PythonToIrCompiler.gen_assign")
+    site = F + ":PythonToIrCompiler.gen_assign"
+    tb = [n for n in ast.walk(ga) if isinstance(n, ast.If) and "ast.Tuple" in norm(n.test) and "target" in norm(n.test)]
+    ctx.need(len(tb) == 1, "gen_assign: tuple-target branch not found")
+    body = tb[0].body
+    stores = [c for s in body for c in ast.walk(s) if isinstance(c, ast.Call) and last_name(c) == "store_value"]
+    evals = [c for s in body for c in ast.walk(s) if isinstance(c, ast.Call) and last_name(c) == "gen_expr"]
+    ctx.need(stores and evals, "gen_assign: tuple branch without gen_expr/store_value")
+    # no gen_expr may be (lexically) inside the loop that stores, nor after a store
+    store_loops = [a for st in stores for a in _ancestors(st, ga) if isinstance(a, ast.For)]
+    inside = [e for e in evals if any(any(x is e for x in ast.walk(l)) for l in store_loops)]
+    late = [e for e in evals if e.lineno > min(st.lineno for st in stores)]
+    ctx.ob("C36.R5", site, "no right-hand element is evaluated inside the loop that stores the targets, or after a store", not inside and not late, construct="evaluate-all-first", node=(inside + late)[0] if (inside + late) else stores[0])
+    allv = [e for e in evals if any(isinstance(a, (ast.ListComp, ast.For, ast.GeneratorExp)) for a in _ancestors(e, ga))]
+    ctx.ob("C36.R5", site, "every element of the right-hand tuple is evaluated (comprehension / loop over the values)", bool(allv), construct="evaluate-every-element")
